@@ -187,7 +187,7 @@ def run(chk):
     kept, dis = R.run_corr(chk, corr, "c17")
     for c in cases:
         chk.count(R.case_json(c), nontrivial=len(c["J"]) >= 2)
-        for dt in ("f64", "f32"):
+        for dt in R.dtypes_for(c):
             {"IMTLG": oracle_imtlg, "ConFIG": oracle_config, "AlignedMTL": oracle_aligned}[c["name"]](
                 chk, c, dt, found)
     # Aligned-MTL on wide matrices: the same rows followed by 2^16 all-zero columns
